@@ -19,7 +19,11 @@ Three Hypothesis parts over ``tornado.httputil.parse_body_arguments`` /
   header size ``h``: ``max_parts < k`` must be rejected, ``max_parts >= k`` accepted;
   ``max_part_header_size < h`` rejected, ``>= h+4`` accepted (``h`` = bytes of the header lines
   without the blank line; the 4-byte window ``h..h+3`` is EITHER because "size of the headers" may
-  or may not count the terminating CRLFCRLF); ``enabled=False`` must raise ``HTTPInputError``.
+  or may not count the terminating CRLFCRLF); ``enabled=False`` must raise ``HTTPInputError``.  The same
+  edges are then configured through the documented global channel ``set_parse_body_config()`` (previous
+  configuration restored in ``finally``) and both entry points are called *without* ``config=``: the
+  limits in force at call time must apply (k parts accepted at max_parts=k, rejected at k-1; header
+  h-1 rejected; ``enabled=False`` rejected).
 * ``mutate``: one or two single-byte mutations (replace/insert/delete) of such an encoded body or of
   its Content-Type, random small limits, optional ``Content-Encoding`` header.
 * ``arbitrary``: bodies glued from delimiter/header/garbage fragments under odd content types.
@@ -52,6 +56,11 @@ Sensitivity (quick tier, seed 1, one mutant at a time on a scratch copy):
     that follows a typed file inherits the earlier file's type) .......... caught (C30.multipart_exact;
     label ``untyped_file_after_typed_file``)
 
+  * ``parse_multipart_form_data(..., config=_DEFAULT_PARSE_BODY_CONFIG.multipart)`` as a definition-time
+    default, call-time ``if config is None`` lookup removed (direct calls keep the import-time limits
+    after ``set_parse_body_config``) ...................................... caught
+    (C30.global_limit_parts_over_accepted via parse_multipart_form_data)
+
 Findings of this check (write-ups in findings_inbox/; both since repaired in /repo and marked fixed,
 their replays under replays/C30/ now hold as regression replays):
   * F-C30-max-parts-off-by-one: a body with exactly ``max_parts`` parts is rejected (the empty text
@@ -63,7 +72,9 @@ their replays under replays/C30/ now hold as regression replays):
 """
 from hypothesis import strategies as st
 
-from vlib.runner import Violation
+from vlib.runner import HarnessError, Violation
+
+from tornado import httputil
 
 from tornado.httputil import (
     HTTPFile,
@@ -76,6 +87,7 @@ from tornado.httputil import (
 )
 
 PROPERTY = "C30"
+_IMPORT_TIME_CONFIG = httputil._DEFAULT_PARSE_BODY_CONFIG
 READY = True
 RULE = (
     "Hypothesis: forms of <=6 items (names/filenames from ASCII, punctuation ; = % ' * & +, controls, "
@@ -678,6 +690,44 @@ def run_form(ctx, case):
     ok, msg, a3, f3 = limited(enabled=False)
     if ok:
         ctx.fail("C30.disabled_accepted", {"body": body})
+
+    # ---- the same limits configured through the documented *global* channel, set_parse_body_config():
+    # both entry points, called without config=, must use the limits in force at call time.
+    def with_global(via, **kw):
+        a4, f4 = {k_: list(v) for k_, v in pre_a.items()}, {k_: list(v) for k_, v in pre_f.items()}
+        previous = httputil._DEFAULT_PARSE_BODY_CONFIG
+        httputil.set_parse_body_config(ParseBodyConfig(multipart=ParseMultipartConfig(**kw)))
+        try:
+            if via == "parse_body_arguments":
+                parse_body_arguments(ctype, body, a4, f4, headers)
+            else:
+                parse_multipart_form_data(boundary.encode("ascii"), body, a4, f4)
+        except HTTPInputError as e:
+            return False, str(e), a4, f4
+        finally:
+            httputil.set_parse_body_config(previous)
+        return True, None, a4, f4
+
+    labels.add("global_config_limits")
+    for via in ("parse_body_arguments", "parse_multipart_form_data"):
+        d = {"via": via + " with set_parse_body_config", "k": k, "h": h, "body": body}
+        ok, msg, a4, f4 = with_global(via, max_parts=k, max_part_header_size=h + 4)
+        if not ok:
+            ctx.fail("C30.global_limit_within_rejected", dict(d, max_parts=k, max_part_header_size=h + 4, raised=msg))
+        else:
+            exact(clause, a4, f4, {"via": d["via"]})
+        if k >= 1:
+            ok, msg, a4, f4 = with_global(via, max_parts=k - 1)
+            if ok:
+                ctx.fail("C30.global_limit_parts_over_accepted", dict(d, max_parts=k - 1))
+            ok, msg, a4, f4 = with_global(via, max_part_header_size=h - 1)
+            if ok:
+                ctx.fail("C30.global_limit_header_over_accepted", dict(d, max_part_header_size=h - 1))
+        ok, msg, a4, f4 = with_global(via, enabled=False)
+        if ok:
+            ctx.fail("C30.global_disabled_accepted", d)
+    if httputil._DEFAULT_PARSE_BODY_CONFIG is not _IMPORT_TIME_CONFIG:
+        raise HarnessError("global parse-body config not restored")
     ctx.note(case, labels, nontrivial)
 
 
